@@ -1,12 +1,89 @@
 import HcipyVerif.Model.Proto
+import HcipyVerif.Model.Layer
 
-/-! Line-protocol front end of the C15 model (stub: not built yet). -/
+/-! Line-protocol front end of the C15 model.
+
+```
+fin new nx ny vx vy seed | fin evolve t | fin reset 0|1      → ok c=[cx,cy] t=T rng=P orig=P noise=P
+inf new nx ny dx dy vx vy seed | inf evolve t | inf reset 0|1 → ok c=[..] t=T sub=[..] rng=P orig=P hist=H scr=s:h:j,…
+                                                                (backwards evolution: err value)
+phases sx sy [kx…] [ky…]   (phasesold …)                      → ok [S_0,…]      flat, x fastest
+extrude left|right|top|bottom W H [new…] [screen…]            → ok […]          (naturals)
+```
+-/
 namespace HcipyVerif.Driver.C15
+open HcipyVerif.Proto HcipyVerif.Layer HcipyVerif.Shift
 
 structure St where
-  dummy : Unit := ()
+  fin : Option FinL := none
+  inf : Option InfL := none
+
+def showV2 (v : V2) : String := s!"[{showRat v.1},{showRat v.2}]"
+
+def showFin (L : FinL) : String :=
+  s!"ok c={showV2 L.center} t={showRat L.t} rng={L.rng.pos} orig={L.orig.pos} noise={L.noise.pos}"
+
+def showSym (s : Sym) : String := s!"{s.start}:{s.hist}:{s.j}"
+
+def showInf (L : InfL) : String :=
+  s!"ok c={showV2 L.center} t={showRat L.t} sub={showV2 L.sub} rng={L.rng.pos} orig={L.orig.pos} hist={L.hist} scr=" ++
+    ",".intercalate (L.screen.map showSym)
+
+def parseBool? (s : String) : Option Bool :=
+  if s == "0" then some false else if s == "1" then some true else none
+
+def parseWhere? (s : String) : Option Where :=
+  if s == "left" then some .left else if s == "right" then some .right
+  else if s == "top" then some .top else if s == "bottom" then some .bottom else none
 
 def step (st : St) : List String → St × String
+  | ["reset"] => ({}, "ok")
+  | ["fin", "new", nx, ny, vx, vy, seed] =>
+    match parseNat? nx, parseNat? ny, parseRat? vx, parseRat? vy, parseNat? seed with
+    | some nx, some ny, some vx, some vy, some seed =>
+      let L := FinL.new nx ny (vx, vy) seed
+      ({ st with fin := some L }, showFin L)
+    | _, _, _, _, _ => (st, "bad-op")
+  | ["fin", "evolve", t] =>
+    match st.fin, parseRat? t with
+    | some L, some t => let L := L.evolve t; ({ st with fin := some L }, showFin L)
+    | _, _ => (st, "bad-op")
+  | ["fin", "reset", b] =>
+    match st.fin, parseBool? b with
+    | some L, some b => let L := L.reset b; ({ st with fin := some L }, showFin L)
+    | _, _ => (st, "bad-op")
+  | ["inf", "new", nx, ny, dx, dy, vx, vy, seed] =>
+    match parseNat? nx, parseNat? ny, parseRat? dx, parseRat? dy, parseRat? vx, parseRat? vy, parseNat? seed with
+    | some nx, some ny, some dx, some dy, some vx, some vy, some seed =>
+      if dx = 0 || dy = 0 then (st, "bad-op") else
+      let L := InfL.new nx ny (dx, dy) (vx, vy) seed
+      ({ st with inf := some L }, showInf L)
+    | _, _, _, _, _, _, _ => (st, "bad-op")
+  | ["inf", "evolve", t] =>
+    match st.inf, parseRat? t with
+    | some L, some t =>
+      match L.evolve t with
+      | some L => ({ st with inf := some L }, showInf L)
+      | none => (st, "err value")
+    | _, _ => (st, "bad-op")
+  | ["inf", "reset", b] =>
+    match st.inf, parseBool? b with
+    | some L, some b => let L := L.reset b; ({ st with inf := some L }, showInf L)
+    | _, _ => (st, "bad-op")
+  | ["phases", sx, sy, kx, ky] =>
+    match parseRat? sx, parseRat? sy, parseRatList? kx, parseRatList? ky with
+    | some sx, some sy, some kx, some ky => (st, "ok " ++ showRatList (phases sx sy kx ky))
+    | _, _, _, _ => (st, "bad-op")
+  | ["phasesold", sx, sy, kx, ky] =>
+    match parseRat? sx, parseRat? sy, parseRatList? kx, parseRatList? ky with
+    | some sx, some sy, some kx, some ky => (st, "ok " ++ showRatList (phasesOld sx sy kx ky))
+    | _, _, _, _ => (st, "bad-op")
+  | ["extrude", w, W, H, new, s] =>
+    match parseWhere? w, parseNat? W, parseNat? H, parseNatList? new, parseNatList? s with
+    | some w, some W, some H, some new, some s =>
+      if s.length ≠ H * W || new.length ≠ (if w.horizontal then H else W) then (st, "err value")
+      else (st, "ok " ++ showNatList (extrude w W H new s))
+    | _, _, _, _, _ => (st, "bad-op")
   | _ => (st, "bad-op")
 
 end HcipyVerif.Driver.C15
